@@ -55,6 +55,10 @@ func ruleMINIMIZE(c *Ctx) {
 	} else {
 		want := map[string]string{
 			"lhs": "r.LHS", "length": "t.RuleLen[", "action": "r.Action", "typ": "r.Type", "flags": "r.Flags",
+			// generated parsers trim the range of a rule that ends with a nullable symbol
+			// (fixTrailingWS, selected by rule number): such rules must not share a class with
+			// rules that end with a non-nullable symbol
+			"nulls": ".Get(",
 		}
 		got := map[string]string{}
 		storeBlk := map[string]*ssa.BasicBlock{}
@@ -89,6 +93,9 @@ func ruleMINIMIZE(c *Ctx) {
 				}
 			}
 			for k, sb := range storeBlk {
+				if k == "nulls" {
+					continue // set when a non-marker symbol exists; false is the right value for none
+				}
 				if useBlk != nil && sb != useBlk && !sb.Dominates(useBlk) {
 					c.Bad(rule, "lalr.computeRuleClasses:ruleKey."+k+":unconditional", f.Pos(), "ruleKey.%s is filled only on some paths to the class lookup: on the other paths it is the zero value, which is also a legitimate %s (rules that differ in it share a class and their reduce states are merged)", k, k)
 				}
@@ -107,6 +114,10 @@ func ruleMINIMIZE(c *Ctx) {
 			w2 := strings.Replace(w, "r.", "g.Rules[", 1)
 			norm := normalizePhi(src)
 			hit := strings.Contains(src, w) || (strings.HasPrefix(w, "r.") && strings.Contains(norm, "g.Rules[") && strings.Contains(norm, "]."+strings.TrimPrefix(w, "r.")))
+			if k == "nulls" {
+				hit = strings.Contains(src, ".Get(") && strings.Contains(norm, ".RHS[")
+				w = "nullability of the last non-marker right-hand-side symbol"
+			}
 			_ = w2
 			switch {
 			case !ok:
@@ -114,7 +125,7 @@ func ruleMINIMIZE(c *Ctx) {
 			case hit:
 				c.Ok(rule, key, f.Pos(), "ruleKey.%s = %s", k, norm)
 			default:
-				c.Bad(rule, key, f.Pos(), "ruleKey.%s is computed from %s, expected %s… (merged states must reduce rules with equal LHS, length as popped by the parser (RuleLen, markers excluded), action, node type and flags)", k, norm, w)
+				c.Bad(rule, key, f.Pos(), "ruleKey.%s is computed from %s, expected %s… (merged states must reduce rules with equal LHS, length as popped by the parser (RuleLen, markers excluded), action, node type, flags and trailing-nullable shape)", k, norm, w)
 			}
 		}
 		for k := range got {
